@@ -51,6 +51,7 @@ def pairing(chk):
     is_mode = any(b.endswith("TorchFunctionMode") for b in repo.external_bases(ci))
     chk.require("C13.R1", f"{mi.rel}:{ci.node.lineno}", is_mode, "Calibration derives from TorchFunctionMode", "Calibration", "mode base class", "any calibration")
     handles = {}
+    stacks = {}
     n_reg = 0
     for p in paths_of(enter):
         sup = any(ef[0] == "expr" and U(ef[1]) == "super().__enter__()" for ef in p.effects) or (p.end[1] is not None and "super().__enter__()" in U(p.end[1]))
@@ -91,10 +92,24 @@ def pairing(chk):
                     handles[cont] = "shared container"
                     handles[cont + "#2"] = "shared container"
                 else:
-                    n_reg += 1
-                    handles.setdefault(cont, "container")
-                    handles.setdefault(cont + f"#{n_reg}", "container")
+                    k_ = sum(1 for a_ in ef[1].args for x in ast.walk(a_) if isinstance(x, ast.Call) and U(x.func) in HOOK_REGISTRARS)
+                    n_reg += k_
+                    stacks.setdefault(cont, []).append(k_)
+                    for i_ in range(k_):
+                        handles.setdefault(cont if i_ == 0 and cont not in handles else cont + f"#{len([h for h in handles if h.startswith(cont)]) + 1}", "container")
     chk.floor("C13.R1", len(handles), 2, "global hook handles stored on entry")
+    # re-entrancy: torch lets the same mode object be entered again while it is active; handles kept in plain attributes are then
+    # overwritten and the first pair of hooks can never be removed
+    plain = sorted(h for h, v in handles.items() if v not in ("container", "shared container"))
+    refuses = any(p.end[0] == "raise" and any("self." in U(c) for c, t, _ in p.conds) for p in paths_of(enter))
+    if plain and not stacks:
+        if refuses:
+            chk.unknown("C13.R1", f"{mi.rel}:{enter.lineno}", "__enter__ has a raising path conditioned on instance state: whether it refuses re-entry is not decided")
+        else:
+            chk.bad("C13.R1", f"{mi.rel}:{enter.lineno}", "Calibration.__enter__", "handles overwritten on re-entry", f"NOT: a second __enter__ of the same object keeps the handles of the first one (they are stored in the plain attributes {plain} and overwritten)",
+                    "c = Calibration(); with c: with c: model(x) - the hooks registered by the outer entry are never removed: the registries are not restored and every later forward keeps updating the scales")
+    elif stacks:
+        chk.ok("C13.R1", f"{mi.rel}:{enter.lineno}", f"each __enter__ pushes its own handles on an instance-level stack {sorted(stacks)} (re-entrant)")
     eparams = positional_params(exit_)[1:]
     for p in paths_of(exit_):
         site = f"{mi.rel}:{p.end[2]}"
@@ -113,6 +128,16 @@ def pairing(chk):
                 if isinstance(f, ast.Attribute) and f.attr == "remove" and isinstance(f.value, ast.Attribute) and U(f.value.value) == "self":
                     if ef[3] == 0:
                         removed.add(f.value.attr)
+                # `for h in self.c.pop(): h.remove()` releases the whole entry pushed last; `self.c.pop().remove()` a single-handle entry
+                if isinstance(f, ast.Attribute) and f.attr == "remove":
+                    rt = U(f.value)
+                    for cont in stacks:
+                        if rt == f"__elem__(self.{cont}.pop())" and ef[3] >= 1 and not drains(exit_, cont):
+                            removed.update(h for h in handles if h == cont or h.startswith(cont + "#"))
+                        elif rt == f"self.{cont}.pop()" and ef[3] == 0 and stacks[cont] == [1] * len(stacks[cont]):
+                            left = [h for h in sorted(handles) if (h == cont or h.startswith(cont + "#")) and h not in removed]
+                            if left:
+                                removed.add(left[0])
         if p.end[1] is not None and "super().__exit__(" in U(p.end[1]):
             sup_exit = True
         # exception safety: nothing that can raise may precede the last release, unless the releases sit in a finally block
@@ -144,6 +169,16 @@ def pairing(chk):
         ret = p.end[1]
         swallow = ret is not None and not (isinstance(ret, ast.Constant) and ret.value in (None, False))
         chk.require("C13.R1", site, not swallow, f"__exit__ does not swallow exceptions (returns {U(ret) if ret is not None else 'None'})", "Calibration.__exit__", "exit return value", "an exception raised inside the context disappears")
+
+
+def drains(fn, cont):
+    """True if the function empties the container in a loop (`while self.c: self.c.pop()...`): that also releases the handles of outer entries."""
+    for n in ast.walk(fn):
+        if isinstance(n, ast.While) and f"self.{cont}" in U(n.test):
+            return True
+        if isinstance(n, ast.For) and U(n.iter) in (f"self.{cont}", f"list(self.{cont})", f"reversed(self.{cont})", f"self.{cont}[::-1]"):
+            return True
+    return False
 
 
 def who_may_call(chk):
